@@ -13,7 +13,10 @@ CONSTANTS Dev
 
 Methods == {"GET", "POST", "CONNECT"}
 Schemes == {"http://", ""}
-Hosts   == {"example.com", "10.1.2.3", "[::1]", "[2001:db8::1]", "a-b.c_d.example", ""}
+\* authorities that are no host of the grammar: brackets that do not balance, an empty bracket pair, nested brackets.
+\* Malformed: refused ("lenient" in the export tells the replayer that the only other thing it must never see is a panic).
+Hostile == {"[", "[::1", "::1]", "[]", "]", "[[::1]]", "[x"}
+Hosts   == {"example.com", "10.1.2.3", "[::1]", "[2001:db8::1]", "a-b.c_d.example", ""} \cup Hostile
 Ports   == {"", ":8080", ":80", ":0", ":65535", ":65536", ":abc", ":"}
 Paths   == {"", "/", "/a/b", "/a:b/c", "/x://y", "/p/"}
 Queries == {"", "?a=b", "?u=http://o:9/p", "?a=b:c", "?q=1/2?3"}
@@ -33,7 +36,9 @@ Sensible(t) == /\ (t.method = "CONNECT" => (t.scheme = "" /\ t.path = "" /\ t.qu
 Uri(t) == t.scheme \o t.host \o t.port \o t.path \o t.query
 
 Expected(t) ==
-  IF t.method = "CONNECT"
+  IF t.host \in Hostile /\ (t.method = "CONNECT" \/ t.scheme # "")
+    THEN [ok |-> FALSE, host |-> t.host, port |-> 0, kind |-> "lenient"]
+  ELSE IF t.method = "CONNECT"
     THEN IF t.port = "" \/ PortValue(t.port) < 0 THEN [ok |-> FALSE, host |-> "", port |-> 0, kind |-> "refuse"]
          ELSE [ok |-> TRUE, host |-> t.host, port |-> PortValue(t.port), kind |-> "https"]
     ELSE IF t.scheme = "" \/ PortValue(t.port) < 0 THEN [ok |-> FALSE, host |-> "", port |-> 0, kind |-> "refuse"]
